@@ -41,6 +41,9 @@ fn main() {
                 "C11" => props::c11::run(tier),
                 "C12" => props::c12::run(tier),
                 "C13" => props::c13::run(tier),
+                "C14" => props::train::run_c14(tier),
+                "C15" => props::train::run_c15(tier),
+                "C16" => props::train::run_c16(tier),
                 "C17" => props::c17::run(tier),
                 "C18" => props::c18::run(tier),
                 "C19" => props::c19::run(tier),
